@@ -1,0 +1,104 @@
+//! Verification hooks (feature `verif-hooks`). Add-only instrumentation used by an
+//! external model-checking harness; nothing here is compiled without the feature.
+//!
+//! A *point* is announced immediately before each acquisition of one of the three
+//! index locks. An installed hook may park the calling thread there (a controlled
+//! scheduler) and may evaluate `is_free` to learn whether the acquisition would block.
+
+use std::sync::{Arc, RwLock};
+
+#[derive(Debug, Clone, Copy, PartialEq, Eq, Hash)]
+pub enum LockId {
+    Intents,
+    State,
+    Wal,
+}
+
+pub struct Point<'a> {
+    /// Code location, e.g. `apply_put_op`.
+    pub label: &'static str,
+    pub lock: LockId,
+    /// Address of the lock object (distinguishes handles).
+    pub addr: usize,
+    /// `false` only for a shared (read) acquisition of the state lock.
+    pub exclusive: bool,
+    /// `true` iff the acquisition that follows would succeed without blocking.
+    pub is_free: &'a dyn Fn() -> bool,
+}
+
+pub type Hook = dyn Fn(&Point<'_>) + Send + Sync;
+
+static HOOK: RwLock<Option<Arc<Hook>>> = RwLock::new(None);
+
+/// Install (or with `None` remove) the process-global hook.
+pub fn install(hook: Option<Arc<Hook>>) {
+    *HOOK.write().unwrap_or_else(|e| e.into_inner()) = hook;
+}
+
+#[inline]
+pub fn point(p: &Point<'_>) {
+    let hook = HOOK.read().unwrap_or_else(|e| e.into_inner()).clone();
+    if let Some(hook) = hook {
+        hook(p);
+    }
+}
+
+pub(crate) fn before_mutex<T>(label: &'static str, lock: LockId, m: &parking_lot::Mutex<T>) {
+    point(&Point {
+        label,
+        lock,
+        addr: std::ptr::from_ref(m) as usize,
+        exclusive: true,
+        is_free: &|| !m.is_locked(),
+    });
+}
+
+pub(crate) fn before_write<T>(label: &'static str, lock: LockId, rw: &parking_lot::RwLock<T>) {
+    point(&Point {
+        label,
+        lock,
+        addr: std::ptr::from_ref(rw) as usize,
+        exclusive: true,
+        is_free: &|| !rw.is_locked(),
+    });
+}
+
+pub(crate) fn before_read<T>(label: &'static str, lock: LockId, rw: &parking_lot::RwLock<T>) {
+    point(&Point {
+        label,
+        lock,
+        addr: std::ptr::from_ref(rw) as usize,
+        exclusive: false,
+        is_free: &|| !rw.is_locked_exclusive(),
+    });
+}
+
+/// The crate-private codecs, exposed for exhaustive input sweeps.
+pub mod codec {
+    use std::collections::BTreeMap;
+    use std::num::NonZeroU64;
+
+    pub use crate::serialization::SerializationError;
+    use crate::{IndexStateItem, KeyBytes, WalOpRaw};
+
+    pub fn serialize_index_state<K: KeyBytes>(
+        map: &BTreeMap<K, IndexStateItem>,
+        last_persisted_version: Option<NonZeroU64>,
+    ) -> Vec<u8> {
+        crate::serialization::serialize_index_state(map, last_persisted_version)
+    }
+
+    pub fn deserialize_index_state(
+        bytes: &[u8],
+    ) -> Result<(BTreeMap<Vec<u8>, IndexStateItem>, Option<NonZeroU64>), SerializationError> {
+        crate::serialization::deserialize_index_state(bytes)
+    }
+
+    pub fn serialize_wal_op_raw(op: &WalOpRaw) -> Result<Vec<u8>, SerializationError> {
+        crate::serialization::serialize_wal_op_raw(op)
+    }
+
+    pub fn deserialize_wal_op_raw(bytes: &[u8]) -> Result<WalOpRaw, SerializationError> {
+        crate::serialization::deserialize_wal_op_raw(bytes)
+    }
+}
